@@ -280,6 +280,32 @@ func (fi *FrameInfo) callEffects(fr *Frame, c *ssa.CallCommon, ws map[string]boo
 		}
 		return
 	case *ssa.Function:
+		if funcFullName(v) == "sync/atomic.Value.Store" {
+			cls := "A:*"
+			if len(c.Args) > 0 {
+				if fa, ok := c.Args[0].(*ssa.FieldAddr); ok {
+					if _, inner := fa.X.(*ssa.FieldAddr); !inner {
+						if pt, ok := fa.X.Type().Underlying().(*types.Pointer); ok {
+							cls = "A:" + fieldClass(pt.Elem(), fa.Field)
+						}
+					}
+				}
+			}
+			ws[cls] = true
+			return
+		}
+		if funcFullName(v) == "sync/atomic.Value.Load" {
+			return
+		}
+		if strings.HasPrefix(funcFullName(v), "sync.Mutex.") || strings.HasPrefix(funcFullName(v), "sync.RWMutex.") {
+			// ghost lock-depth counter: a loop of the function under verification that locks
+			// or unlocks must carry an invariant about it; callees are assumed lock-balanced
+			// (proved for those that have a lockbalance contract), so their frames omit it
+			if fr != nil {
+				ws["lock"] = true
+			}
+			return
+		}
 		*callees = append(*callees, v)
 		return
 	case *ssa.MakeClosure:
